@@ -18,9 +18,15 @@ type lexTraceJob struct {
 // recordLexTraces runs the real lexers and turns what they did into trace events.
 // With dbg the lexers were generated with -debug_lexer and every loop iteration is an event.
 func (c *Ctx) recordLexTraces(b *LexBatch, inputs [][][]byte, resets int, dbg bool) []*lexTraceJob {
+	return c.recordLexTracesPartial(b, inputs, resets, 0, dbg)
+}
+
+// recordLexTracesPartial: with partial > 0 only that many Scan calls are made before the first
+// Reset (a lexer reset in mid-stream).
+func (c *Ctx) recordLexTracesPartial(b *LexBatch, inputs [][][]byte, resets, partial int, dbg bool) []*lexTraceJob {
 	var ops []lexOp
 	for i, cs := range b.Cases {
-		ops = append(ops, lexOp{Op: "scan", G: cs.Sub, Inputs: inputs[i], Resets: resets, Extra: 2})
+		ops = append(ops, lexOp{Op: "scan", G: cs.Sub, Inputs: inputs[i], Resets: resets, Extra: 2, Partial: partial})
 	}
 	res, stdout := b.Drv.Run(ops)
 	var dbgScans map[[2]int][][]dbgScan
@@ -37,22 +43,34 @@ func (c *Ctx) recordLexTraces(b *LexBatch, inputs [][][]byte, resets int, dbg bo
 			if res[i].Panics[j] != "" {
 				job.Events = append(job.Events, map[string]any{"ev": "panic", "msg": res[i].Panics[j]})
 			}
+			// debug output is free text and may be reworded: when it does not have the expected
+			// shape for this run, the run is validated at Scan granularity instead
+			jobDbg := dbg
+			if dbg {
+				rounds := dbgScans[[2]int{i, j}]
+				if len(rounds) < len(res[i].Scans[j]) {
+					jobDbg = false
+				}
+				for k, round := range res[i].Scans[j] {
+					if jobDbg && len(rounds[k]) != len(round) {
+						jobDbg = false
+					}
+				}
+				if !jobDbg {
+					job.Events[0]["dbg"] = false
+					c.Add("debug_traces_validated_at_scan_granularity_only", 1)
+				}
+			}
 			for k, round := range res[i].Scans[j] {
 				if k > 0 {
 					job.Events = append(job.Events, map[string]any{"ev": "reset"})
 				}
 				var ds []dbgScan
-				if dbg {
-					rounds := dbgScans[[2]int{i, j}]
-					if k < len(rounds) {
-						ds = rounds[k]
-					}
-					if len(ds) != len(round) {
-						infra("debug output of %s has %d Scan calls, driver recorded %d (input %q)", cs.Sub, len(ds), len(round), in)
-					}
+				if jobDbg {
+					ds = dbgScans[[2]int{i, j}][k]
 				}
 				for n, t := range round {
-					if dbg {
+					if jobDbg {
 						job.Events = append(job.Events, map[string]any{"ev": "begin", "pos": ds[n].Pos})
 						for _, st := range ds[n].Steps {
 							job.Events = append(job.Events, map[string]any{"ev": "iter", "pos": st.Pos, "line": st.Line, "col": st.Col,
@@ -131,10 +149,16 @@ func (c *Ctx) validateLexTraces(b *LexBatch, jobs []*lexTraceJob) []*lexTraceJob
 // lexTraceCheck records and validates; every rejected trace is reproduced against the
 // reference tokenizer before it is reported.
 func (c *Ctx) lexTraceCheck(b *LexBatch, inputs [][][]byte, resets int, dbg bool, what string) {
-	jobs := c.recordLexTraces(b, inputs, resets, dbg)
+	c.lexTraceCheckPartial(b, inputs, resets, 0, dbg, what)
+}
+
+func (c *Ctx) lexTraceCheckPartial(b *LexBatch, inputs [][][]byte, resets, partial int, dbg bool, what string) {
+	jobs := c.recordLexTracesPartial(b, inputs, resets, partial, dbg)
 	rej := c.validateLexTraces(b, jobs)
 	for _, j := range rej {
-		rp := Replay{Kind: "lex", Data: lexReplayData(j.Case, j.In, resets, true)}
+		d := lexReplayData(j.Case, j.In, resets, true)
+		d["partial"] = partial
+		rp := Replay{Kind: "lex", Data: d}
 		bad, msg := replayLex(c, &rp)
 		if !bad {
 			infra("%s: trace of input %q rejected by LexTrace but the token stream equals the reference (grammar:\n%s)", what, j.In, j.Case.Text)
